@@ -10,6 +10,7 @@ import (
 	vtypes "github.com/chain4energy/c4e-chain/x/cfevesting/types"
 	sdk "github.com/cosmos/cosmos-sdk/types"
 	vestingtypes "github.com/cosmos/cosmos-sdk/x/auth/vesting/types"
+	banktypes "github.com/cosmos/cosmos-sdk/x/bank/types"
 )
 
 func init() { Register(&Check{ID: "C06", Level: "model_checking", Run: runC06}) }
@@ -123,6 +124,13 @@ func c06State(w *harness.World, ctx sdk.Context, aux interface{}) []*explore.Vio
 
 func runC06(rc *RunCtx) {
 	scn := vestScenario("c06", "C06", c06Cfg())
+	// the owner also has a genesis pool locked until the year 2300 (beyond what fits a nanosecond
+	// count): it must stay locked at every block time of the exploration
+	g := vestGenesis()
+	g.Vesting.AccountVestingPools = []*vtypes.AccountVestingPools{{Owner: harness.AddrS("A"), VestingPools: []*vtypes.VestingPool{
+		{Name: "far", VestingType: "t0", LockStart: harness.T0, LockEnd: time.Date(2300, 1, 1, 0, 0, 0, 0, time.UTC), InitiallyLocked: sdk.NewInt(7), Withdrawn: sdk.ZeroInt(), Sent: sdk.ZeroInt(), GenesisPool: true}}}}
+	g.ExtraBal = append(g.ExtraBal, banktypes.Balance{Address: harness.ModAddr(vtypes.ModuleName).String(), Coins: coins(7)})
+	scn.Genesis = harness.BuildGenesis(g)
 	scn.StepOracle = c06Step
 	scn.StateOracle = c06State
 	depth, budget, maxTraces := 5, 100*time.Second, 2000
